@@ -376,3 +376,13 @@ package locate
 //@   requires distinct: targetReplica != proxyReplica
 //@   ensures consumed: result0 != nil ==> targetReplica != nil && targetReplica.attempts == old(targetReplica.attempts) + 1 && result0.Peer == targetReplica.peer && result0.Store == targetReplica.store
 //@   ensures untouched: result0 == nil && targetReplica != nil ==> targetReplica.attempts <= old(targetReplica.attempts) + 1
+
+// A failed send is retried (nil answer) only after an RPC back-off, except for the read time-out that a replica selector
+// answers by marking the replica and moving on (which uses up that replica).
+//@ func (*RegionRequestSender) onSendFail
+//@   prop C10
+//@   may-panic
+//@   typeinv errvars: tikverr.ErrTiDBShuttingDown != nil
+//@   opaque-callee onSendFailure OnSendFail NeedReloadRegion InvalidateTiFlashComputeStoresIfGRPCError getClientExt CloseAddrVer CloseAddr getErrMsg storeIDLabel onReadReqConfigurableTimeout
+//@   at return assert paid: err != nil && result == nil && (s.replicaSelector == nil || !isCauseByDeadlineExceeded(err)) ==>
+//@       bo.backoffTimes[retry.tikvRPCKind()] == old(bo.backoffTimes[retry.tikvRPCKind()]) + 1 || bo.backoffTimes[retry.tiflashRPCKind()] == old(bo.backoffTimes[retry.tiflashRPCKind()]) + 1
